@@ -2,10 +2,14 @@
 
 Tie: the REAL `cascade.scheduler.graph.precompute` (with the real `decompose`, `enrich`, python
 fallback of `nearest_common_descendant`, `low.views.dependants` / `param_source`) against
-Model/Presched.lean on the same random job DAGs; everything that came out of a Python set or
+Model/Presched.lean on the same random jobs; everything that came out of a Python set or
 dict is compared as a set / map (components: as a set of components, plus the sequence of
 weights as produced). The internal `paths` table of `enrich` is observed by wrapping the
-module global `nearest_common_descendant` (no hook in the repo).
+module global `nearest_common_descendant` (no hook in the repo). Every case runs twice: inline with a
+synchronous stand-in for the thread pool (interruptible: a hang is a result), and in a child process
+(c16_worker.py) with the real ThreadPoolExecutor; a quarter also with a stand-in for `coptrs`.
+Jobs outside the property's quantifier (dangling edges, cycles, raw edges with both / neither sink
+input) are compared with the model too — which exception, or no return — but not judged.
 Oracle: written from the property text with networkx (weakly connected components, in-degree,
 shortest path lengths, descendants, longest path), independent of the model.
 """
@@ -14,27 +18,41 @@ import signal
 
 PROPERTY = "C16"
 LEVEL_TEXT = ("Lean theorems over Model/Presched.lean (dependants, param_source, edge projections, decompose flood fill, enrich layering + "
-              "shortest-descendant-path DP + value, python fallback of nearest_common_descendant, component sort): for every well-formed job DAG "
-              "the components are exactly the weakly connected components (partition, closed, connected), sources are exactly the tasks without "
+              "shortest-descendant-path DP + value, python fallback of nearest_common_descendant, component sort): for every job DAG whose edges "
+              "join tasks of the job - ALSO when several edges feed the same sink input (hypothesis removed with the fix: precompute records every "
+              "edge) - the components are exactly the weakly connected components (partition, closed, connected), sources are exactly the tasks without "
               "inputs, edge_o/edge_i/task_o equal the job's edges (multi-edges, multi-output tasks included), the DP table holds shortest directed "
               "path lengths (depth if none), value = depth - distance to the nearest sink, distance(a,b) = least d such that some task is within d "
-              "steps of both (depth if none), weights are non-increasing; the loop fuels of the model are proved sufficient for DAGs. Unbounded in the "
-              "size of the job; tied to the real precompute by a correspondence check on random DAGs.")
+              "steps of both (depth if none), weights are non-increasing; the while-loop of enrich exits with `remaining` empty after at most len(nodes) "
+              "rounds and the loop fuels of the model are sufficient; run as the real code runs it (a missing key of `remaining` = KeyError, an empty layer "
+              "with `remaining` non-empty = never exits) enrich returns for every component, and returns the model function's value "
+              "(c16_enrich_returns, c16_layersLoopE_ok), while a stuck loop never exits (c16_stuck_never_exits); the scheduler's inputs of a task agree with what the "
+              "executor binds (param_source) exactly when no input has two sources (c16_executor_view_partial / _full_fails); the two remaining "
+              "hypotheses are necessary (c16_partition_cyclic_full_fails, c16_partition_dangling_full_fails) and are what the builder (C19) / the "
+              "property's 'job DAG' provide. Unbounded in the size of the job; tied to the real precompute by the correspondence check.")
 LEVEL_NOTE = ("modelled, not verified: scheduler/graph.py precompute/decompose/enrich/nearest_common_descendant (python fallback), low/views.py "
-              "dependants/param_source, scheduler/core.py ComponentCore/Preschedule; the coptrs C extension (absent here) is outside the model; "
-              "Python set iteration order is abstracted (results compared as sets/maps); the thread pool of precompute is a pure map in the model")
+              "dependants/param_source, scheduler/core.py ComponentCore/Preschedule; the coptrs C extension (absent here) is outside the model - its "
+              "conversion code in graph.py is exercised with a stand-in module that computes the fallback's function on coptrs' data layout; "
+              "Python set iteration order is abstracted (results compared as sets/maps); the thread pool of precompute is a pure map in the model - "
+              "every case is re-run through the real ThreadPoolExecutor in a child process and must give the inline result. The driver runs the "
+              "`...E` functions of the model, in which KeyError and 'never exits' are results (proved equal to the total functions on well-formed "
+              "DAGs: c16_enrich_returns), with a flood fuel that also covers dangling ends.")
 TECHNIQUE = ("Lean 4 proofs (flood-fill invariant, counting invariant of the layering loop, Bellman equations of the DP solved by induction on a DAG "
-             "rank) + differential correspondence with the real precompute + networkx oracle")
+             "rank) + differential correspondence with the real precompute (inline, real thread pool, coptrs stand-in) + networkx oracle")
 LEAN_PROPS = ["EkwVerif.Props.C16"]
 LEAN_DRIVERS = ["C16"]
-RULE = ("random job DAGs: 1-40 tasks (thorough: up to 60), 1-6 planted components of shapes chain / diamond / fan-in / fan-out / layered random / "
+RULE = ("random jobs: 0-40 tasks (thorough: up to 60), 1-6 planted components of shapes chain / diamond / fan-in / fan-out / layered random / ladder / "
         "isolated, plus random extra forward edges, multi-edges between the same pair (same or different output, different sink inputs), 1-3 outputs "
-        "per task, kw and positional sink inputs, task names uncorrelated with topology; a few raw edges with both/neither sink input (TypeError). "
-        "non-trivial = at least one edge and (>= 2 components or a multi-edge or a multi-output task or a diamond); distinct by content hash")
+        "per task, kw and positional (also negative) sink inputs, task names of three styles (short tags, arbitrary strings incl. dots / blanks / "
+        "non-ASCII / the empty name / shared prefixes, hex words) uncorrelated with topology; 14% with a sink input fed by 2-4 edges (other task, other "
+        "output of the same task, exact copy); 6% outside the quantifier (edge from / to a non-task, cycle, self loop) and 2.5% raw edges with "
+        "both/neither sink input, compared with the model only; 10 many-component jobs (6-12 components of 8-20 tasks) three times each through the "
+        "real pool at a 1 us switch interval. non-trivial = at least one edge and (>= 2 components or a multi-edge or a multi-output task or a diamond "
+        "or an input fed twice); distinct by content hash")
 ASSUMPTIONS = [
-    "job well-formed: edge endpoints are tasks of the job, at most one edge per (sink task, sink input), acyclic (IsDag) — explicit hypotheses of the theorems",
-    "coptrs is not installed: the python fallback of nearest_common_descendant is what runs and what is modelled",
-    "the ThreadPoolExecutor of precompute is replaced by a synchronous map for most cases (so a hang can be interrupted); a sample is re-run with the real pool",
+    "the property's 'job DAG': task ids distinct (a dict), every edge joins two tasks of the job (what JobBuilder.build guarantees: Props/C19.lean c19_accepted_presched_wf_run), acyclic (IsDag; NOT checked by any code before precompute) - explicit hypotheses of the theorems, shown necessary by c16_partition_*_full_fails",
+    "coptrs is not installed: the python fallback of nearest_common_descendant is what runs and what is modelled; the stand-in used for the conversion code assumes that coptrs computes the fallback's function",
+    "the inline runs replace ThreadPoolExecutor by a synchronous map (so that a hang can be interrupted); every case is re-run with the real pool in a child process that is killed when it does not answer",
     "set/dict iteration order is not part of the compared result (PYTHONHASHSEED is fixed from the seed for reproducibility)",
 ]
 
@@ -66,6 +84,21 @@ class _SyncPool:
 
     def map(self, f, it):
         return map(f, it)
+
+
+def _err_enum(e):
+    """`<exception class>@<function of the repo that raised it>`: a TypeError of param_source (both / neither sink
+    input given) is a different result from a TypeError raised anywhere else."""
+    import traceback
+    fn = "?"
+    try:
+        for fr, _ in traceback.walk_tb(e.__traceback__):
+            f = fr.f_code.co_filename
+            if "/cascade/" in f or "/earthkit/" in f:
+                fn = fr.f_code.co_name
+    except Exception:
+        pass
+    return f"{type(e).__name__}@{fn}"
 
 
 def build_job(case):
@@ -112,7 +145,7 @@ def run_real(case, real_pool=False, timeout=None):
     except BaseException as e:  # noqa: the real code's exception is a result
         if isinstance(e, (KeyboardInterrupt, SystemExit)):
             raise
-        return {"error": type(e).__name__}
+        return {"error": _err_enum(e)}
     finally:
         signal.signal(signal.SIGALRM, old)
         graph.nearest_common_descendant = orig_ncd
@@ -155,9 +188,19 @@ def _canon_real(res):
     }
 
 
+MODEL_ERR = {"KeyError": "KeyError@enrich", "Diverges": "Timeout"}
+
+
 def canon_model(out):
-    if "error" in out or "driver_error" in out:
-        return {"error": out.get("error", "driver")}
+    if "driver_error" in out:
+        return {"error": "driver"}
+    if out.get("error") == "TypeError":
+        return {"error": "TypeError@param_source"}
+    if out.get("error") == "Enrich":
+        # the real code stops at the first failing component it meets (set order): any of these
+        return {"error": "Enrich", "any_of": sorted({MODEL_ERR.get(x, x) for x in out.get("errors", [])})}
+    if "error" in out:
+        return {"error": out["error"]}
     comps = []
     for c in out["components"]:
         comps.append({
@@ -176,7 +219,10 @@ def canon_model(out):
 
 
 def first_diff(a, b):
+    """a = model, b = real (both canonical)."""
     if "error" in a or "error" in b:
+        if "any_of" in a:
+            return None if b.get("error") in a["any_of"] else "error"
         return "error" if a != b else None
     for k in ("weights", "edge_o", "edge_i", "task_o"):
         if a[k] != b[k]:
@@ -195,17 +241,28 @@ def first_diff(a, b):
 _SHAPES = ["chain", "diamond", "fanin", "fanout", "layered", "random", "isolated", "ladder"]
 
 
+_ODD = ["", " ", ".", "a.b", "a.b.c", "0", "17", "007", "t", "T", "t ", "täsk", "задача", "名前", "x" * 40, "n1", "n10", "n100", "n-1", "-",
+        "o0", "k0", "a/b", "a:b", "[]", "None", "__NO_OUTPUT__", "it's", 'q"q', "a\\b", "\u00e9", "e\u0301"]
+
+
 def _names(rng, n):
-    """Task names uncorrelated with topology (and with varying lengths, so that string hashing differs)."""
+    """Task names uncorrelated with topology. Three styles (one per job): the short tags of the first version of this
+    check, arbitrary printable strings (dots, blanks, digits only, non-ASCII, long, shared prefixes, the empty name), or
+    hexadecimal words (many different hash values, so that set iteration order is exercised beyond one name shape)."""
+    style = rng.random()
     pool = []
     used = set()
     while len(pool) < n:
-        k = rng.randint(0, 999)
-        s = rng.choice(["t", "task", "n", "x-", "job_"]) + str(k)
+        if style < 0.5:
+            s = rng.choice(["t", "task", "n", "x-", "job_"]) + str(rng.randint(0, 999))
+        elif style < 0.8:
+            s = rng.choice(_ODD) if rng.random() < 0.5 else rng.choice(_ODD) + rng.choice(["", ".", "_", " "]) + str(rng.randint(0, 30))
+        else:
+            s = "%x" % rng.getrandbits(rng.choice([8, 16, 32, 64]))
         if s not in used:
             used.add(s)
             pool.append(s)
-    return pool
+    return pool, ("tags" if style < 0.5 else "odd" if style < 0.8 else "hex")
 
 
 def _component_edges(rng, shape, k):
@@ -256,7 +313,7 @@ def _component_edges(rng, shape, k):
 def gen_case(rng, max_tasks):
     n = rng.randint(1, max_tasks) if rng.random() < 0.8 else rng.randint(1, min(6, max_tasks))
     ncomp = min(n, rng.randint(1, 6))
-    names = _names(rng, n)
+    names, style = _names(rng, n)
     rng.shuffle(names)
     # split n into ncomp parts >= 1
     cuts = sorted(rng.sample(range(1, n), ncomp - 1)) if ncomp > 1 else []
@@ -289,15 +346,103 @@ def gen_case(rng, max_tasks):
         nxt[b] = i + 1
         if rng.random() < 0.3:
             kw, ps = "k%d" % i, None
+        elif rng.random() < 0.03:
+            kw, ps = None, -1 - i          # JobBuilder.with_edge takes any int
         else:
             kw, ps = None, i
-        edges.append({"src": a, "out": rng.choice(outs[a]), "dst": b, "kw": kw, "ps": ps})
+        # (rarely) an output name the source task does not declare: nothing in JobInstance forbids it, edge_o is keyed by it
+        out = rng.choice(outs[a]) if rng.random() > 0.02 else "undeclared"
+        edges.append({"src": a, "out": out, "dst": b, "kw": kw, "ps": ps})
     # a task nobody consumes from may have an empty output schema
     producers = {e["src"] for e in edges}
     for t in tasks:
         if t[0] not in producers and rng.random() < 0.08:
             t[1] = []
-    return {"tasks": tasks, "edges": edges}, {"shapes": shapes, "multi": multi}
+    return {"tasks": tasks, "edges": edges}, {"shapes": shapes, "multi": multi, "names": style}
+
+
+def _reach(case):
+    import networkx as nx
+    g = nx.DiGraph()
+    g.add_nodes_from(t for t, _ in case["tasks"])
+    g.add_edges_from((e["src"], e["dst"]) for e in case["edges"])
+    return g
+
+
+def gen_dupkey_case(rng, max_tasks):
+    """A DAG in which some sink input is fed by more than one edge (JobInstance has no validator for it; before its
+    fix JobBuilder.build accepted it): a second edge into the SAME (sink task, sink input) from another task, from
+    another output of the same task, or an exact copy of an edge; sometimes a third one. Still acyclic."""
+    import networkx as nx
+    for _ in range(20):
+        case, meta = gen_case(rng, max_tasks)
+        if case["edges"] and len(case["tasks"]) >= 2:
+            break
+    else:
+        case = {"tasks": [["a", ["o0"]], ["b", ["o0"]], ["c", ["o0"]]], "edges": [{"src": "a", "out": "o0", "dst": "c", "kw": None, "ps": 0}]}
+        meta = {"shapes": ["fanin"], "multi": 0, "names": "tags"}
+    g = _reach(case)
+    outs = dict((t, o) for t, o in case["tasks"])
+    kinds = []
+    for _ in range(rng.choice([1, 1, 1, 2, 3])):
+        e = rng.choice(case["edges"])
+        b = e["dst"]
+        banned = nx.descendants(g, b) | {b}
+        others = [t for t, o in case["tasks"] if t not in banned and o]
+        x = rng.random()
+        if x < 0.15:
+            new = dict(e)
+            kinds.append("copy")
+        elif x < 0.35 and len(outs[e["src"]]) > 1:
+            new = dict(e, out=rng.choice([o for o in outs[e["src"]] if o != e["out"]]))
+            kinds.append("other-output")
+        elif others:
+            a = rng.choice(others)
+            new = dict(e, src=a, out=rng.choice(outs[a]))
+            g.add_edge(a, b)
+            kinds.append("other-task")
+        else:
+            new = dict(e)
+            kinds.append("copy")
+        case["edges"].insert(rng.randint(0, len(case["edges"])), new)
+    meta = dict(meta, dupkey=kinds)
+    return case, meta
+
+
+def gen_outside_case(rng, max_tasks):
+    """Jobs OUTSIDE the property's quantifier (compared with the model only, never judged by the oracle): an edge
+    whose source or sink is not a task of the job, or a directed cycle (also a self loop). The real code is run
+    under the watchdog; the model says which of them make `enrich` raise KeyError or never return."""
+    case, meta = gen_case(rng, max_tasks)
+    names = [t for t, _ in case["tasks"]]
+    outs = dict((t, o) for t, o in case["tasks"])
+    if rng.random() < 0.5:
+        ghost = rng.choice(["ghost", "", "nope", names[0] + "'"])
+        while ghost in names:
+            ghost += "_"
+        withouts = [t for t in names if outs[t]]
+        if rng.random() < 0.5 or not withouts:
+            e = {"src": ghost, "out": "o0", "dst": rng.choice(names), "kw": None, "ps": 90}
+            kind = "ghost-source"
+        else:
+            a = rng.choice(withouts)
+            e = {"src": a, "out": rng.choice(outs[a]), "dst": ghost, "kw": "k", "ps": None}
+            kind = "ghost-sink"
+        case["edges"].append(e)
+    else:
+        g = _reach(case)
+        withouts = [t for t in names if outs[t]]
+        if not withouts:
+            case["tasks"][0][1] = ["o0"]
+            outs[names[0]] = ["o0"]
+            withouts = [names[0]]
+        a = rng.choice(withouts)
+        import networkx as nx
+        anc = sorted(nx.ancestors(g, a))
+        b = rng.choice(anc) if anc and rng.random() < 0.8 else a
+        case["edges"].append({"src": a, "out": rng.choice(outs[a]), "dst": b, "kw": None, "ps": 91})
+        kind = "self-loop" if a == b else "cycle"
+    return case, dict(meta, outside=kind)
 
 
 def gen_bad_case(rng):
@@ -314,25 +459,30 @@ def gen_bad_case(rng):
     return case
 
 
-def well_formed(case):
+def in_quantifier(case):
+    """The property's 'every job DAG': task ids distinct, every edge names exactly one sink input, joins two tasks of
+    the job, and the edges are acyclic. (More than one edge into the same sink input IS inside: nothing in JobInstance
+    forbids it and the property demands that the inputs are recorded 'exactly as the job's edges state'.)"""
     ids = [t for t, _ in case["tasks"]]
     if len(set(ids)) != len(ids):
         return False
-    seen = set()
     for e in case["edges"]:
         if (e["kw"] is None) == (e["ps"] is None):
             return False
         if e["src"] not in ids or e["dst"] not in ids:
             return False
+    import networkx as nx
+    return nx.is_directed_acyclic_graph(_reach(case))
+
+
+def has_dup_key(case):
+    seen = set()
+    for e in case["edges"]:
         k = (e["dst"], "kw" if e["kw"] is not None else "ps", e["kw"] if e["kw"] is not None else e["ps"])
         if k in seen:
-            return False
+            return True
         seen.add(k)
-    import networkx as nx
-    g = nx.DiGraph()
-    g.add_nodes_from(ids)
-    g.add_edges_from((e["src"], e["dst"]) for e in case["edges"])
-    return nx.is_directed_acyclic_graph(g)
+    return False
 
 
 # ----------------------------------------------------------------------------- oracle (property text + networkx)
@@ -433,7 +583,7 @@ def shrink(case, kind):
     t_end = time.time() + 20
 
     def fails(c):
-        if time.time() > t_end or not well_formed(c):
+        if time.time() > t_end or not in_quantifier(c):
             return False
         f = oracle(c, run_real(c, timeout=0.5))
         return f is not None and f[0] == kind
@@ -475,6 +625,7 @@ def fixed_cases():
         return {"src": a, "out": o, "dst": b, "kw": ("k%d" % i) if kw else None, "ps": None if kw else i}
     one = [["a", ["o0"]]]
     return [
+        {"tasks": [], "edges": []},                               # the empty job
         {"tasks": one, "edges": []},
         {"tasks": [["a", ["o0"]], ["b", ["o0"]], ["c", ["o0"]]], "edges": []},
         # multi-edge, two outputs of the same task into the same sink
@@ -490,6 +641,17 @@ def fixed_cases():
         # test_graph.py example of the repo
         {"tasks": [["v%d" % i, ["o0"]] for i in range(7)],
          "edges": [e("v0", "o0", "v1", 0), e("v1", "o0", "v2", 0), e("v3", "o0", "v1", 1), e("v4", "o0", "v5", 0), e("v5", "o0", "v2", 1), e("v4", "o0", "v6", 0)]},
+        # jDup of Props/C16.lean: two tasks feed the same sink input (positional / keyword / negative position)
+        {"tasks": [[t, ["o0"]] for t in "abc"], "edges": [e("a", "o0", "c", 0), e("b", "o0", "c", 0)]},
+        {"tasks": [[t, ["o0"]] for t in "abc"], "edges": [e("a", "o0", "c", 0, True), e("b", "o0", "c", 0, True)]},
+        {"tasks": [["a", ["o0", "o1"]], ["b", ["o0"]], ["c", ["o0"]]],
+         "edges": [e("a", "o0", "b", -1), e("a", "o1", "b", -1), e("b", "o0", "c", 0), e("a", "o0", "c", 0), e("a", "o0", "c", 0)]},
+        # outside the quantifier (model comparison only): source that is no task beside a real producer, sink that is no task, 2-cycle behind a source, self loop
+        {"tasks": [["a", ["o0"]], ["c", ["o0"]]], "edges": [e("a", "o0", "c", 0), e("ghost", "o0", "c", 1)]},
+        {"tasks": [["a", ["o0"]], ["c", ["o0"]]], "edges": [e("a", "o0", "c", 0), e("a", "o0", "ghost", 1)]},
+        {"tasks": [[t, ["o0"]] for t in "sab"], "edges": [e("s", "o0", "a", 0), e("a", "o0", "b", 0), e("b", "o0", "a", 1)]},
+        {"tasks": [[t, ["o0"]] for t in "ab"], "edges": [e("a", "o0", "b", 0), e("b", "o0", "a", 0)]},
+        {"tasks": [[t, ["o0"]] for t in "sa"], "edges": [e("s", "o0", "a", 0), e("a", "o0", "a", 1)]},
     ]
 
 
@@ -502,55 +664,77 @@ def _features(case):
     return multi, multi_out
 
 
+def _timeout_for(case, inq):
+    """A healthy precompute on 60 tasks takes milliseconds. Jobs outside the quantifier are expected to hang when
+    they contain a cycle: they get a short limit; a hang inside the quantifier is a violation and is confirmed with the
+    longer one (lowered after a few, so that a looping implementation cannot stall the check)."""
+    if not inq:
+        return 0.4
+    return TIMEOUT_S if _timeouts_seen < 3 else 0.5
+
+
 def _evaluate(ctx, cases, compare=True):
     from ekw.core import lean_drive
     reals = []
     for case, meta in cases:
-        res = run_real(case)
+        inq = in_quantifier(case)
+        res = run_real(case, timeout=_timeout_for(case, inq))
         reals.append(res)
-        wf = well_formed(case)
         multi, multi_out = _features(case)
+        dup = has_dup_key(case)
         ncomp = len(res["pre"].components) if "pre" in res else 0
-        nontrivial = bool(case["edges"]) and (ncomp >= 2 or multi or multi_out or "diamond" in meta.get("shapes", []))
+        nontrivial = bool(case["edges"]) and (ncomp >= 2 or multi or multi_out or dup or "diamond" in meta.get("shapes", []))
         ctx.case({"tasks": case["tasks"][:8], "edges": case["edges"][:8], "n_tasks": len(case["tasks"]), "n_edges": len(case["edges"])}, nontrivial=nontrivial)
         ctx.count("jobs")
         ctx.count("tasks", len(case["tasks"]))
         ctx.count("edges", len(case["edges"]))
         ctx.count("components", ncomp)
-        ctx.count("size:%s" % ("1" if len(case["tasks"]) == 1 else "2-5" if len(case["tasks"]) <= 5 else "6-15" if len(case["tasks"]) <= 15 else "16-40" if len(case["tasks"]) <= 40 else ">40"))
+        ctx.count("size:%s" % ("0" if not case["tasks"] else "1" if len(case["tasks"]) == 1 else "2-5" if len(case["tasks"]) <= 5 else "6-15" if len(case["tasks"]) <= 15 else "16-40" if len(case["tasks"]) <= 40 else ">40"))
         for s in meta.get("shapes", []):
             ctx.count("shape:" + s)
+        if "names" in meta:
+            ctx.count("task_names:" + meta["names"])
         if multi:
             ctx.count("jobs_with_multi_edges")
         if multi_out:
             ctx.count("jobs_with_multi_output_tasks")
         if any(len(o) == 0 for _, o in case["tasks"]):
             ctx.count("jobs_with_output_less_tasks")
+        if any(e["ps"] is not None and e["ps"] < 0 for e in case["edges"]):
+            ctx.count("jobs_with_negative_positions")
         if "pre" in res and any(len(c.nodes) == 1 for c in res["pre"].components):
             ctx.count("jobs_with_isolated_tasks")
-        if not wf:
-            ctx.count("ill_formed_raw_edges(TypeError expected)")
+        if any(e["out"] == "undeclared" for e in case["edges"]):
+            ctx.count("jobs_with_edges_from_undeclared_outputs")
+        if dup and inq:
+            ctx.count("jobs_with_a_sink_input_fed_twice")
+            for k in meta.get("dupkey", []):
+                ctx.count("fed_twice:" + k)
+        if not inq:
+            ctx.count("outside_quantifier:" + meta.get("outside", "raw-edge(TypeError expected)" if any((e["kw"] is None) == (e["ps"] is None) for e in case["edges"]) else "other"))
         if "error" in res:
             ctx.count("real_error:" + res["error"])
-        if wf:
+        if inq:
             f = oracle(case, res)
             if f:
                 ctx.count("oracle_failure:" + f[0])
-                seen = sum(1 for v in ctx.violations if v["signature"].get("kind") == f[0])
+                sig = _signature(f, case, res)
+                seen = sum(1 for v in ctx.violations if v["signature"] == sig)
                 if seen >= 3:
                     continue     # same kind already reported with shrunk witnesses
                 small = shrink(case, f[0])
-                f2 = oracle(small, run_real(small, timeout=TIMEOUT_S))
+                r2 = run_real(small, timeout=TIMEOUT_S)
+                f2 = oracle(small, r2)
                 if f2 is None or f2[0] != f[0]:
-                    small, f2 = case, f
-                ctx.violation({"kind": f2[0]}, {"job": small}, f2[1])
+                    small, f2, r2 = case, f, res
+                ctx.violation(_signature(f2, small, r2), {"job": small}, f2[1])
     if not compare:
-        return
+        return reals
     lines = [json.dumps(case) for case, _ in cases]
     outs = lean_drive("C16", lines)
     if len(outs) != len(lines):
         ctx.disagree("driver", {"n": len(lines)}, f"{len(outs)} output lines", f"{len(lines)} inputs")
-        return
+        return reals
     for (case, _), res, o in zip(cases, reals, outs):
         ctx.traces += 1
         a = canon_model(json.loads(o))
@@ -558,6 +742,19 @@ def _evaluate(ctx, cases, compare=True):
         d = first_diff(a, b)
         if d:
             ctx.disagree("precompute:" + d, {"job": case}, _brief(a, d), _brief(b, d))
+        elif "error" in b:
+            ctx.count("agreed_on_error:" + b["error"])
+    return reals
+
+
+def _signature(f, case, res):
+    """Kind of the oracle failure; for 'no result' also WHAT happened (exception@function / Timeout) and whether the
+    job feeds a sink input twice — a hang on such a job is a different finding from a hang on a plain DAG."""
+    sig = {"kind": f[0]}
+    if f[0] == "no-result":
+        sig["error"] = res.get("error")
+        sig["sink_input_fed_twice"] = has_dup_key(case)
+    return sig
 
 
 def _brief(c, d):
@@ -580,27 +777,127 @@ def _corpus():
     return out
 
 
+def _pre_from_canon(c):
+    """The canonical result of a child-process run as an object with the attributes the oracle reads."""
+    from types import SimpleNamespace as NS
+    from cascade.low.core import DatasetId
+    if "error" in c:
+        return {"error": c["error"]}
+    comps = [NS(nodes=list(x["nodes"]), sources=list(x["sources"]), depth=x["depth"], value={k: v for k, v in x["value"]},
+                distance_matrix={a: {b: d for b, d in row} for a, row in x["dist"]}) for x in c["components"]]
+    # `components` of the canonical form are sorted for comparison; the order AS PRODUCED is kept in `weights`
+    order = []
+    pool = list(comps)
+    for w in c["weights"]:
+        k = next((i for i, x in enumerate(pool) if len(x.nodes) == w), None)
+        order.append(pool.pop(k) if k is not None else NS(nodes=[None] * w, sources=[], depth=0, value={}, distance_matrix={}))
+    return {"pre": NS(components=order,
+                      edge_o={DatasetId(k[0], k[1]): set(v) for k, v in c["edge_o"]},
+                      edge_i={k: {DatasetId(d[0], d[1]) for d in v} for k, v in c["edge_i"]},
+                      task_o={k: {DatasetId(d[0], d[1]) for d in v} for k, v in c["task_o"]})}
+
+
+def gen_wide_case(rng):
+    """Many connected components of 8-20 tasks each (several layering rounds per component): the four workers of the
+    real pool have something to do at the same time."""
+    tasks, edges = [], []
+    for k in range(rng.randint(6, 12)):
+        n = rng.randint(8, 20)
+        local = ["%d/%s%d" % (k, rng.choice(["t", "n", "x-"]), i) for i in range(n)]
+        rng.shuffle(local)
+        nxt = {}
+        for i, j in _component_edges(rng, rng.choice(["layered", "ladder", "random", "diamond", "chain"]), n):
+            a, b = local[i], local[j]
+            q = nxt.get(b, 0)
+            nxt[b] = q + 1
+            edges.append({"src": a, "out": "o0", "dst": b, "kw": None, "ps": q})
+        tasks += [[t, ["o0"]] for t in local]
+    rng.shuffle(tasks)
+    rng.shuffle(edges)
+    return {"tasks": tasks, "edges": edges}, {"shapes": ["wide"], "names": "tags"}
+
+
+def _judge_child_result(ctx, case, canon, how):
+    """The property oracle on a result that came back from the child process (real pool / coptrs stand-in)."""
+    if not in_quantifier(case):
+        return
+    res = _pre_from_canon(canon)
+    f = oracle(case, res)
+    if f:
+        ctx.count("oracle_failure(" + how + "):" + f[0])
+        sig = dict(_signature(f, case, res), run=how)
+        if sum(1 for v in ctx.violations if v["signature"] == sig) < 2:
+            ctx.violation(sig, {"job": case, "run": how}, how + ": " + f[1])
+
+
+def _real_pool_pass(ctx, cases, reals):
+    """EVERY case again through the real ThreadPoolExecutor(max_workers=4) in a child process (switch interval 10 us,
+    so that the four workers, which share the two projection defaultdicts and read them with inserting reads, and the
+    thread that drains `decompose` interleave): the canonical result must be the inline one. A child that does not
+    answer is killed: 'Timeout', which must be what the inline run said too. A sample also runs with a stand-in
+    for the absent `coptrs` extension, which exercises the dict-of-pairs conversion of nearest_common_descendant."""
+    from ekw.c16_worker import Child
+    ch = Child()
+    hung = 0
+    try:
+        for k, ((case, meta), res) in enumerate(zip(cases, reals)):
+            a = canon_real(res)
+            expect_hang = a.get("error") == "Timeout"
+            if expect_hang:
+                hung += 1
+                if hung > 2:
+                    continue      # each costs a killed child; two are enough to see that the pool hangs as well
+            b = ch.run(case, "pool", 1.0 if expect_hang else 20.0)
+            ctx.count("rerun_with_real_thread_pool")
+            if a != b:
+                ctx.disagree("thread-pool", {"job": case}, {"inline": _brief(a, first_diff(a, b) or "error")},
+                             {"real ThreadPoolExecutor": _brief(b, first_diff(a, b) or "error")})
+                _judge_child_result(ctx, case, b, "real ThreadPoolExecutor")
+            if k % 4 == 0 and "error" not in a:
+                c = ch.run(case, "coptrs", 20.0)
+                ctx.count("rerun_with_coptrs_stand_in")
+                if a != c:
+                    ctx.disagree("coptrs-conversion", {"job": case}, {"python fallback": _brief(a, first_diff(a, c) or "error")},
+                                 {"with coptrs stand-in": _brief(c, first_diff(a, c) or "error")})
+                    _judge_child_result(ctx, case, c, "coptrs stand-in")
+        # many-component jobs, several times each: the runs in which the workers really overlap
+        for i in range(ctx.budget(10, 120)):
+            case, meta = gen_wide_case(ctx.rng)
+            a = canon_real(run_real(case, timeout=10.0))
+            ctx.count("wide_jobs_through_real_thread_pool")
+            ctx.count("wide_job_components", len(a.get("components", [])))
+            for rep in range(3):
+                b = ch.run(case, "pool1us", 10.0)
+                if a != b:
+                    ctx.disagree("thread-pool", {"job": case}, {"inline": _brief(a, first_diff(a, b) or "error")},
+                                 {"real ThreadPoolExecutor": _brief(b, first_diff(a, b) or "error")})
+                    _judge_child_result(ctx, case, b, "real ThreadPoolExecutor")
+                    break
+    finally:
+        ch.close()
+
+
+def gen_mix(rng, i, max_tasks):
+    if i % 40 == 39:
+        return gen_bad_case(rng), {}
+    # most jobs small enough to be read by a human, a quarter up to the full size
+    m = max_tasks if rng.random() < 0.25 else min(max_tasks, 14)
+    x = rng.random()
+    if x < 0.14:
+        return gen_dupkey_case(rng, m)
+    if x < 0.20:
+        return gen_outside_case(rng, min(m, 14))
+    return gen_case(rng, m)
+
+
 def correspond(ctx):
-    n = ctx.budget(300, 8000)
+    n = ctx.budget(300, 6000)
     max_tasks = ctx.budget(40, 60)
     cases = _corpus() + [(c, {}) for c in fixed_cases()]
     for i in range(n):
-        if i % 40 == 39:
-            cases.append((gen_bad_case(ctx.rng), {}))
-        else:
-            # most jobs small enough to be read by a human, a fifth up to the full size
-            m = max_tasks if ctx.rng.random() < 0.25 else min(max_tasks, 14)
-            cases.append(gen_case(ctx.rng, m))
-    _evaluate(ctx, cases)
-    # a sample through the real thread pool: must give the same canonical result as the inline run
-    for case, _ in cases[:: max(1, len(cases) // 25)]:
-        a = run_real(case)
-        if "error" in a:
-            continue    # (the pool cannot be interrupted: only inputs on which the inline run returned)
-        b = run_real(case, real_pool=True)
-        if canon_real(a) != canon_real(b):
-            ctx.disagree("thread-pool", {"job": case}, "same result as inline map", first_diff(canon_real(a), canon_real(b)))
-        ctx.count("rerun_with_real_thread_pool")
+        cases.append(gen_mix(ctx.rng, i, max_tasks))
+    reals = _evaluate(ctx, cases)
+    _real_pool_pass(ctx, cases, reals)
 
 
 def search(ctx, why):
@@ -610,10 +907,10 @@ def search(ctx, why):
     seeds = []
     for d in why.get("disagreements", []):
         j = d.get("case", {}).get("job")
-        if j and well_formed(j):
+        if j and in_quantifier(j):
             seeds.append((j, {}))
     n = ctx.budget(1500, 10000)
-    cases = seeds + [gen_case(ctx.rng, ctx.budget(40, 60) if i % 3 == 0 else 10) for i in range(n)]
+    cases = seeds + [gen_mix(ctx.rng, i, ctx.budget(40, 60) if i % 3 == 0 else 10) for i in range(n)]
     before = len(ctx.violations)
     for case, meta in cases:
         if len(ctx.violations) > before + 3:
@@ -622,15 +919,31 @@ def search(ctx, why):
 
 
 def oracle_only(ctx):
-    cases = [(c, {}) for c in fixed_cases()] + [gen_case(ctx.rng, 20) for _ in range(300)]
+    cases = [(c, {}) for c in fixed_cases()] + [gen_mix(ctx.rng, i, 20) for i in range(300)]
     _evaluate(ctx, cases, compare=False)
 
 
 def replay(payload):
     case = payload["case"]["job"]
-    res = run_real(case)
+    how = payload["case"].get("run")
     print("job:", json.dumps(case))
+    if how:
+        # the failure was seen in the child process (real pool: a race, repeat a few times / coptrs stand-in)
+        from ekw.c16_worker import Child
+        ch = Child()
+        try:
+            for _ in range(20 if "Thread" in how else 1):
+                c = ch.run(case, "pool1us" if "Thread" in how else "coptrs", 30.0)
+                f = oracle(case, _pre_from_canon(c)) if in_quantifier(case) else None
+                if f:
+                    break
+        finally:
+            ch.close()
+        print(how + ":", json.dumps(c)[:2000])
+        print("oracle:", f)
+        return 1 if f else 0
+    res = run_real(case)
     print("real:", json.dumps(canon_real(res)))
-    f = oracle(case, res) if well_formed(case) else None
+    f = oracle(case, res) if in_quantifier(case) else None
     print("oracle:", f)
     return 1 if f else 0
